@@ -65,6 +65,7 @@ def add_allocs(d, rng, heavy=True):
     d["caops"] = rng.choice(ALLOC_SCRIPTS if heavy else ALLOC_SCRIPTS[:4])
     d["cafree"] = rng.choice([0, 1, 1])
     d["cathr"] = rng.choice([0, 1])
+    d["cavar"] = rng.choice([0, 0, 3, 4, 7])
     d["gan"] = rng.choice([0, 1, 3])
     d["gasz"] = rng.choice([8, 24, 1000])
     d["dan"] = rng.choice([0, 1, 2])
@@ -78,7 +79,7 @@ def gen_c01(tier, seed, native=True):
     out = []
     idx = 0
     # systematic: every entry x shape pair at a boundary grid
-    grid_s = [0, 1, 2, 3] if tier == "quick" else [0, 1, 2, 3, 5, 7, 64]
+    grid_s = [0, 1, 2, 3, 5, 8] if tier == "quick" else [0, 1, 2, 3, 5, 7, 10, 64]
     grid_n = [0, 1, 2, 3] if tier == "quick" else [0, 1, 2, 3, 5, 100]
     for entry in range(6):
         ishapes = [None] if entry < 2 else ISHAPES
